@@ -492,6 +492,13 @@ def check(ctx):
         if is_derived(fn) and re.search(r"clone::Clone>::clone$", fn.name):
             ctx.ob("C06.a", "ctor:" + M.short_name(fn.name), True, "derived Clone copies current_mode", fn.loc(bb, i))
             continue
+        if re.search(r"ScannerImpl as std::clone::Clone>::clone$", fn.name) and op["k"] in ("copy", "move"):
+            # a hand-written Clone: the mode is copied from the value that is cloned (that the clone is faithful as a whole is C12.a)
+            e_ = M.Prov(fn).operand(op)
+            src_ = M.expr_str(e_)
+            okc = re.search(r"\bself\b.*current_mode", src_) is not None and not re.search(r"[-+]|\bcall\b", src_.replace("*", ""))
+            ctx.ob("C06.a", "ctor:" + M.short_name(fn.name), okc, "hand-written Clone: current_mode = %s" % src_[:80], fn.loc(bb, i))
+            continue
         ok = op["k"] == "const" and op.get("val") == 0
         if not ok and op["k"] in ("copy", "move"):
             # a local that holds the literal (`let current_mode = 0;` assembled into the struct at the end)
